@@ -58,3 +58,8 @@ claim('C20', 'fault_enumeration',
       'Kills modelled at step boundaries (not inside htslib); a dying pool worker (Pool waits forever) is outside the check; worker failures are exceptions delivered through the deterministic pool. Trusted: pysam/htslib.',
       'fault injection enumerated over all step boundaries of property-based generated libraries (Hypothesis), with an invariant oracle on status file vs output',
       'DESIGN.md section 4, C20')
+claim('C11', 'exploration',
+      'Hypothesis-generated synthetic tagged BAMs (arbitrary flag words, MAPQ, SM/DS/RC/RR/NH/XA/mp/NM/DA tags, CIGARs with I/D/S, unmapped reads and unmapped mates) x option namespaces drawn from the whole filter / weighting / feature / binning / BED / blacklist / contig space, each table of create_count_table(return_df=True) compared cell by cell with an independent recount written from the option help texts.',
+      'Trusted: pysam fetch, pandas. Every read has its sample tags; at most one of XA/NH per read; blacklist regions hold reads entirely or not at all; byValue only with joined features plus at least one other feature; --splitFeatures not generated; tolerance 1e-9.',
+      'property-based testing (Hypothesis) against an independent reference implementation (recount)',
+      'DESIGN.md section 4, C11')
